@@ -6,6 +6,7 @@ import (
 	"testing"
 
 	remoteexecution "github.com/bazelbuild/remote-apis/build/bazel/remote/execution/v2"
+	"github.com/buildbarn/bb-storage/pkg/blobstore"
 	"github.com/buildbarn/bb-storage/pkg/blobstore/completenesschecking"
 	"github.com/buildbarn/bb-storage/pkg/digest"
 
@@ -47,11 +48,14 @@ func fuzzSeeds() [][]byte {
 // FuzzC13Tree feeds arbitrary bytes as the Tree object of a single output
 // directory. flags: bit 0 root directory digest set; bits 1..3 batch size;
 // bits 4..7 which referenced object (if any) is absent; bits 8..12 chunk
-// size when streaming (0: byte slice).
+// size when streaming (0: byte slice); bits 13..14 serving: 0 buffer
+// constructors directly, 1..3 through blobstore.CASReadBufferFactory from a
+// byte slice / a reader / a ReadAtCloser.
 func FuzzC13Tree(f *testing.F) {
 	for i, s := range fuzzSeeds() {
 		f.Add(s, uint16(i*37))
 		f.Add(s, uint16(1|3<<1|uint16(i+1)<<4|7<<8))
+		f.Add(s, uint16(1|2<<1|uint16(i)<<4|uint16(i%4)<<8|3<<13))
 	}
 	f.Fuzz(func(t *testing.T, tree []byte, flags uint16) {
 		c := recFuzz.Begin()
@@ -94,7 +98,12 @@ func FuzzC13Tree(f *testing.F) {
 		if chunk > 0 {
 			streamed[treeDigest] = serveSpec{chunks: []int{chunk}, failAfter: -1}
 		}
-		sp := newSpy(&casServer{Mem: mem, streamed: streamed})
+		srv := &casServer{Mem: mem, streamed: streamed}
+		if m := int(flags >> 13 & 3); m > 0 {
+			srv.factory = blobstore.CASReadBufferFactory
+			srv.via = map[digest.Digest]viaSpec{treeDigest: {method: []string{"slice", "reader", "readerat"}[m-1], sizeFromDigest: chunk&1 == 1, eofAtEnd: chunk&2 == 2}}
+		}
+		sp := newSpy(srv)
 		acMem := backends.NewMem("ac", digest.KeyWithInstance)
 		acDigest := digest.MustNewDigest(instance, fn, hashHex(fn, []byte("action")), 6)
 		acMem.Set(acDigest, arBytes)
@@ -110,6 +119,7 @@ func FuzzC13Tree(f *testing.F) {
 				tree, renderTree(tree), withRoot, batch, removed, final.refOrder, final.missing, final.malformed, final.treeBad, renderLog(sp), gerr)
 		}})
 		c.Class("outcome_" + outcome)
+		c.Class([]string{"serve_direct", "serve_factory_slice", "serve_factory_reader", "serve_factory_readerat"}[flags>>13&3])
 		c.ClassIf(len(final.treeBad) == 0, "parses_as_tree")
 		c.ClassIf(len(final.treeBad) == 0 && len(final.malformed) == 0 && len(final.missing) == 0 && gerr != nil, "reference_accepts_but_decorator_rejects")
 		c.ClassIf(len(final.missing) == 1, "exactly_one_missing")
